@@ -24,9 +24,15 @@ type item struct {
 	// comment: a {# ... #} comment: renders nothing, ends the literal text on both sides, is no block tag and
 	// carries no dash
 	comment bool
+	// verb: (with comment set) a verbatim block with this non-empty body instead of a comment: renders the body, ends
+	// the literal text on both sides, is no block tag and carries no dash
+	verb string
 }
 
 func (it item) src() string {
+	if it.comment && it.verb != "" {
+		return "{% verbatim %}" + it.verb + "{% endverbatim %}"
+	}
 	if it.comment {
 		return "{# c #}"
 	}
@@ -134,6 +140,9 @@ type DocCase struct {
 	// must render each time like the source hand-stripped for THAT setting; Twins holds the four hand-stripped sources
 	// in the order TT, FT, TF, FF
 	ViaUpdate bool    `json:"via_update,omitempty"`
+	// ViaRenderFile: like ViaUpdate, but the options are changed on the SET between calls of its RenderTemplateFile,
+	// RenderTemplateString and FromFile shortcuts for the same source
+	ViaRenderFile bool `json:"via_render_file,omitempty"`
 	Twins     []eng.Q `json:"twins,omitempty"`
 }
 
@@ -154,6 +163,9 @@ func (c *DocCase) ID() string {
 	if c.ViaUpdate {
 		id += " via-Options.Update"
 	}
+	if c.ViaRenderFile {
+		id += " via-set-options-and-render-shortcuts"
+	}
 	return id
 }
 
@@ -164,6 +176,36 @@ func (c *DocCase) Exec(t *eng.T) {
 		t.Nontrivial()
 	}
 	var got, want px.Out
+	if c.ViaRenderFile {
+		set, _ := px.NewSet(map[string]string{"/main": string(c.Src)})
+		for i, st := range [][2]bool{{true, true}, {false, true}, {true, false}, {false, false}} {
+			set.Options.TrimBlocks, set.Options.LStripBlocks = st[0], st[1]
+			w := px.Render(nil, string(c.Twins[i]), ctx())
+			for _, route := range []string{"RenderTemplateFile", "RenderTemplateString", "FromFile"} {
+				var s string
+				var err error
+				site, msg, pan := eng.Protect(func() {
+					switch route {
+					case "RenderTemplateFile":
+						s, err = set.RenderTemplateFile("/main", ctx())
+					case "RenderTemplateString":
+						s, err = set.RenderTemplateString(string(c.Src), ctx())
+					default:
+						var tp *pongo2.Template
+						if tp, err = set.FromFile("/main"); err == nil {
+							s, err = tp.Execute(ctx())
+						}
+					}
+				})
+				if pan || err != nil || s != w.S {
+					t.Fail("ws:set-options-changed:"+route, "%s: with the set's options changed to TrimBlocks=%v LStripBlocks=%v (step %d of TT,FT,TF,FF) %s gives %q (error %v, panic %s %s); the source hand-stripped for that setting renders %s", c.ID(), st[0], st[1], i+1, route, s, err, site, msg, w)
+					return
+				}
+			}
+		}
+		t.Outcome("render-file-options")
+		return
+	}
 	if c.ViaUpdate {
 		set, _ := px.NewSet(nil)
 		tpl, out := px.Compile(set, string(c.Src))
@@ -682,6 +724,28 @@ func run(r *eng.Runner) {
 			return !r.Stopped()
 		})
 	}
+	// verbatim blocks as neighbours of the literal text: the text next to them is literal text like any other
+	r.Group("verbatim-boundary", "c15.doc", "a W V W C W V W b (V a verbatim block with a body that starts and ends with blanks, W next to C over 4 runs, every construct with every dash subset, all 4 option settings): the text between a verbatim block and a construct is trimmed like any other, the block's body never")
+	{
+		w4 := []string{"", " ", "\n", " \n\t "}
+		vb := item{comment: true, verb: " \n v \n "}
+		for _, c := range cs {
+			enum.Tuples(len(w4), 2, func(wi []int) bool {
+				for mask := 0; mask < 1<<c.nd; mask++ {
+					items := []item{{text: "a "}, vb, {text: w4[wi[0]]}}
+					items = append(items, c.items(flags(mask, c.nd), "\n ", " \n")...)
+					items = append(items, item{text: w4[wi[1]]}, vb, item{text: " b"})
+					emitDoc(r, items, "verbatim:"+c.name)
+					// and with some text between
+					items2 := []item{{text: "a"}, vb, {text: w4[wi[0]] + "x" + w4[wi[0]]}}
+					items2 = append(items2, c.items(flags(mask, c.nd), "\n ", " \n")...)
+					items2 = append(items2, item{text: w4[wi[1]] + "y" + w4[wi[1]]}, vb)
+					emitDoc(r, items2, "verbatim:"+c.name)
+				}
+				return !r.Stopped()
+			})
+		}
+	}
 	// comments between the whitespace and the construct: only the literal text directly next to a marker is affected
 	r.Group("comment-neighbours", "c15.doc", "W a W {# c #} W C W {# c #} W b W with W over 3 runs, every construct with dash subsets, all 4 option settings: a comment ends the adjacent literal text (the whitespace on its far side stays)")
 	{
@@ -717,7 +781,7 @@ func run(r *eng.Runner) {
 			return !r.Stopped()
 		})
 	}
-	r.Group("options-update", "c15.doc", "the one-construct documents (W over 5 runs, no dashes): ONE compiled template walked through TT, FT, TF, FF with Template.Options.Update, each rendering compared with the source hand-stripped for that setting")
+	r.Group("options-update", "c15.doc", "the one-construct documents (W over 5 runs, no dashes): ONE compiled template walked through TT, FT, TF, FF with Template.Options.Update, each rendering compared with the source hand-stripped for that setting; the same walk with the SET's options changed between calls of RenderTemplateFile / RenderTemplateString / FromFile")
 	for _, c := range cs {
 		enum.Tuples(len(w2), 4, func(wi []int) bool {
 			var doc []item
@@ -729,6 +793,8 @@ func run(r *eng.Runner) {
 				twins = append(twins, eng.Q(source(handStrip(doc, st[0], st[1]))))
 			}
 			r.Do(&DocCase{Src: eng.Q(source(doc)), TrimBlocks: true, LStrip: true, Kind: "options-update:" + c.name, ViaUpdate: true, Twins: twins})
+			// and the set's own options changed between calls of its rendering shortcuts for the same file
+			r.Do(&DocCase{Src: eng.Q(source(doc)), TrimBlocks: true, LStrip: true, Kind: "set-options-changed:" + c.name, ViaRenderFile: true, Twins: twins})
 			return !r.Stopped()
 		})
 	}
